@@ -27,12 +27,20 @@ var _ frontend.TrackerLogic = &Logic{}
 // NewLogic creates a new instance of a TrackerLogic that executes the provided
 // middleware hooks.
 func NewLogic(cfg ResponseConfig, peerStore storage.PeerStore, preHooks, postHooks []Hook) *Logic {
+	// The chains are copies: appending to a slice with spare capacity would
+	// write into the caller's backing array - over a hook that follows in it,
+	// or over the response hook of another Logic built from the same slice.
+	pre := make([]Hook, 0, len(preHooks)+1)
+	pre = append(append(pre, preHooks...), &responseHook{store: peerStore})
+	post := make([]Hook, 0, len(postHooks)+1)
+	post = append(append(post, postHooks...), &swarmInteractionHook{store: peerStore})
+
 	return &Logic{
 		announceInterval:    cfg.AnnounceInterval,
 		minAnnounceInterval: cfg.MinAnnounceInterval,
 		peerStore:           peerStore,
-		preHooks:            append(preHooks, &responseHook{store: peerStore}),
-		postHooks:           append(postHooks, &swarmInteractionHook{store: peerStore}),
+		preHooks:            pre,
+		postHooks:           post,
 	}
 }
 
